@@ -72,7 +72,7 @@ class PROP(Prop):
                                         evs = []
                                         if late and j == 1:
                                             # the late reply to the abandoned request arrives first
-                                            evs.append("d" + cligen.frame(proto, 0, slave, mb.spec_rsp_pdu(("RHR", [0xDEAD]))).hex())
+                                            evs.append("d" + cligen.frame(proto, 0, slave, mb.spec_rsp_pdu(("RHR", [0xDEAD])) if rng.random() < 0.6 else bytes([0x83, rng.randrange(1, 12)])).hex())
                                             exp.append("late")
                                         else:
                                             exp.append("OK:RHR:%d" % val)
